@@ -17,8 +17,10 @@ import (
 	"github.com/google/osv-scalibr/extractor/filesystem/language/javascript/yarnlock"
 	"github.com/google/osv-scalibr/extractor/filesystem/language/python/requirements"
 	"github.com/google/osv-scalibr/extractor/filesystem/language/python/setup"
+	"github.com/google/osv-scalibr/extractor/filesystem/language/python/wheelegg"
 	"github.com/google/osv-scalibr/extractor/filesystem/language/ruby/gemfilelock"
 	"github.com/google/osv-scalibr/extractor/filesystem/language/ruby/gemspec"
+	wpplugins "github.com/google/osv-scalibr/extractor/filesystem/misc/wordpress/plugins"
 	"github.com/google/osv-scalibr/extractor/filesystem/os/apk"
 	"github.com/google/osv-scalibr/extractor/filesystem/os/dpkg"
 	"github.com/google/osv-scalibr/extractor/filesystem/os/homebrew"
@@ -52,6 +54,8 @@ var targets = map[string]target{
 	"cabal":          {cabal.NewDefault, "cabal.project.freeze"},
 	"stacklock":      {stacklock.NewDefault, "stack.yaml.lock"},
 	"gomod":          {gomod.New, "go.mod"},
+	"wheelegg":       {wheelegg.NewDefault, "site-packages/a-1.0.dist-info/METADATA"},
+	"wordpress":      {wpplugins.NewDefault, "wp-content/plugins/a/a.php"},
 }
 
 // templates are small well-formed files of each format (after the extractors' own fixtures);
@@ -72,6 +76,9 @@ var templates = map[string]string{
 	"elixir-mixlock": "%{\n  \"a\": {:hex, :a, \"1.0\", \"h\", [:mix], [], \"hexpm\", \"s\"},\n}\n",
 	"gemspec":        "Gem::Specification.new do |s|\n  s.name = \"a\".freeze\n  s.version = \"1.0\"\nend\n",
 	"setup":          "setup(\n  install_requires=[\n    'a==1.0',\n    \"b>=2\",\n  ],\n)\n",
+	"wheelegg":       "Metadata-Version: 2.1\nName: a\nVersion: 1.0\nAuthor: x\n\nbody\n",
+	"wordpress":      "<?php\n/*\n * Plugin Name: A\n * Version: 1.0\n */\n",
+	"os-release":     "ID=debian\n# c\nVERSION_ID=\"12\"\nVERSION_CODENAME=b\n",
 }
 
 type info struct {
@@ -147,6 +154,50 @@ func VerifMutate() {
 		Path:   t.path,
 		Info:   info{name: t.path, size: int64(len(buf))},
 		Reader: bytes.NewReader(buf),
+	})
+	if err != nil {
+		verifrt.Reach("error")
+	} else {
+		verifrt.Reach("ok")
+	}
+	verifrt.ObserveInt("packages", len(inv.Packages))
+	for _, p := range inv.Packages {
+		verifrt.Assert(len(p.Locations) > 0, "an emitted package has at least one location")
+		p.Extractor = e
+		if u := e.ToPURL(p); u != nil {
+			verifrt.Assert(u.Type != "", "an emitted package's PURL has a type")
+		}
+	}
+}
+
+// VerifOSRelease: the OS extractors also read etc/os-release from the scanned tree; no content of
+// that file makes them panic either. The package database itself is the well-formed template.
+// k = 0: the whole os-release file is n arbitrary bytes; k > 0: a window of k arbitrary bytes in a
+// well-formed os-release file.
+func VerifOSRelease() {
+	name := verifrt.ParamStr("extractor")
+	t := targets[name]
+	tpl := []byte(templates[name])
+	var rel []byte
+	if k := verifrt.Param("k"); k > 0 {
+		base := []byte(templates["os-release"])
+		pos := verifrt.Choice("position", len(base))
+		truncate := verifrt.Choice("truncate", 2) == 1
+		rel = append([]byte{}, base[:pos]...)
+		rel = append(rel, verifrt.Bytes("hole", k)...)
+		if !truncate && pos+k < len(base) {
+			rel = append(rel, base[pos+k:]...)
+		}
+	} else {
+		rel = verifrt.Bytes("osrelease", verifrt.Param("n"))
+	}
+	fsys := &symfs.FS{Root: symfs.Dir(".", symfs.Dir("etc", &symfs.Node{Name: "os-release", Mode: 0o644, Size: int64(len(rel)), Data: rel}))}
+	e := t.mk()
+	inv, err := e.Extract(context.Background(), &filesystem.ScanInput{
+		FS:     fsys,
+		Path:   t.path,
+		Info:   info{name: t.path, size: int64(len(tpl))},
+		Reader: bytes.NewReader(tpl),
 	})
 	if err != nil {
 		verifrt.Reach("error")
